@@ -202,15 +202,25 @@ class DenseOutput(object):
             self.__t_eval_arr_stale = False
         return self.__t_eval_arr
 
+    @property
+    def __decreasing(self):
+        # Interpolants are stored in the order of integration, the end times decrease when integrating backwards
+        return len(self.t_eval) > 1 and self.t_eval[-1] < self.t_eval[0]
+
     def find_interval(self, t):
         if self.t_eval is None:
             raise ValueError("No interpolant has been added and time interval is not defined!")
+        if self.__decreasing:
+            return min(deutil.search_bisection(-self.t_eval_arr, -t), len(self.y_interpolants) - 1)
         return min(deutil.search_bisection(self.t_eval, t), len(self.y_interpolants) - 1)
 
     def find_interval_vec(self, t):
         if self.t_eval is None:
             raise ValueError("No interpolant has been added and time interval is not defined!")
-        out = deutil.search_bisection_vec(self.t_eval_arr, t)
+        if self.__decreasing:
+            out = deutil.search_bisection_vec(-self.t_eval_arr, -D.ar_numpy.asarray(t))
+        else:
+            out = deutil.search_bisection_vec(self.t_eval_arr, t)
         out[out > len(self.y_interpolants) - 1] = len(self.y_interpolants) - 1
         return out
 
@@ -263,19 +273,15 @@ class DenseOutput(object):
                     y_interp(self.t_eval[-1])
                 except:
                     raise
-                if (t - self.t_eval[-1]) < 0:
-                    self.t_eval.insert(0, D.ar_numpy.asarray(t))
-                    self.y_interpolants.insert(0, y_interp)
-                else:
-                    self.t_eval.append(D.ar_numpy.asarray(t))
-                    self.y_interpolants.append(y_interp)
+                self.t_eval.append(D.ar_numpy.asarray(t))
+                self.y_interpolants.append(y_interp)
             if D.autoray.infer_backend(t) == 'torch':
                 self.t_eval = [i.to(D.ar_numpy.asarray(t)) for i in self.t_eval]
             self.__t_eval_arr_stale = True
 
     def remove_interpolant(self, idx):
         out = self.t_eval.pop(idx), self.y_interpolants.pop(idx)
-        self.__t_eval_arr = D.ar_numpy.stack(self.t_eval)
+        self.__t_eval_arr_stale = True
         return out
 
     def __len__(self):
@@ -283,11 +289,11 @@ class DenseOutput(object):
 
     @property
     def t_min(self):
-        return D.ar_numpy.min(self.__t_eval_arr)
+        return D.ar_numpy.min(self.t_eval_arr)
 
     @property
     def t_max(self):
-        return D.ar_numpy.max(self.__t_eval_arr)
+        return D.ar_numpy.max(self.t_eval_arr)
 
 
 class DiffRHS(object):
